@@ -201,13 +201,15 @@ impl<T> OptionParser<T> {
         // prepare available short flags and arguments for disambiguation
         let mut short_flags = Vec::new();
         let mut short_args = Vec::new();
-        self.inner
-            .meta()
-            .collect_shorts(&mut short_flags, &mut short_args);
-        // a letter the parser itself declares as an argument belongs to that argument
-        let builtin = self.info.help_arg.short.iter();
-        let builtin = builtin.chain(&self.info.version_arg.short);
-        short_flags.extend(builtin.filter(|c| !short_args.contains(c)));
+        let meta = self.inner.meta();
+        meta.collect_shorts(&mut short_flags, &mut short_args);
+        // help and version switches, of this parser and of the commands nested in it; a letter
+        // the parser itself declares as an argument belongs to that argument
+        let mut builtin = Vec::new();
+        builtin.extend(&self.info.help_arg.short);
+        builtin.extend(&self.info.version_arg.short);
+        meta.collect_builtin_shorts(&mut builtin);
+        short_flags.extend(builtin.iter().filter(|c| !short_args.contains(c)));
         let args = args.into();
         let mut err = None;
         let mut state = State::construct(args, &short_flags, &short_args, &mut err);
